@@ -356,6 +356,10 @@ func (bsc *BlipSyncContext) handleChangesResponse(ctx context.Context, sender *b
 		return err
 	}
 
+	if base.VerifOn && collectionCtx.sgr2PushAddExpectedSeqsCallback != nil {
+		base.VerifEmit(verifObj(bsc), "Answer", "coll", verifCollIdx(collectionIdx), "batch", verifBatchID(changeArray), "seqs", verifChangeSeqs(changeArray), "want", verifWanted(answer, len(changeArray)))
+	}
+
 	for i, knownRevsArrayInterface := range answer {
 		seq := changeArray[i][0].(SequenceID)
 		docID := changeArray[i][1].(string)
@@ -414,13 +418,22 @@ func (bsc *BlipSyncContext) handleChangesResponse(ctx context.Context, sender *b
 		}
 	}
 
+	if base.VerifOn && collectionCtx.sgr2PushAddExpectedSeqsCallback != nil {
+		base.VerifEmit(verifObj(bsc), "BatchSent", "coll", verifCollIdx(collectionIdx), "batch", verifBatchID(changeArray), "sent", verifSeqs(sentSeqs), "known", verifSeqs(alreadyKnownSeqs))
+	}
 	if collectionCtx.sgr2PushAlreadyKnownSeqsCallback != nil {
 		collectionCtx.sgr2PushAlreadyKnownSeqsCallback(alreadyKnownSeqs...)
+	}
+	if base.VerifOn && collectionCtx.sgr2PushAddExpectedSeqsCallback != nil {
+		base.VerifEmit(verifObj(bsc), "KnownDone", "coll", verifCollIdx(collectionIdx), "batch", verifBatchID(changeArray))
 	}
 
 	if revSendCount > 0 {
 		if collectionCtx.sgr2PushAddExpectedSeqsCallback != nil {
 			collectionCtx.sgr2PushAddExpectedSeqsCallback(sentSeqs...)
+			if base.VerifOn {
+				base.VerifEmit(verifObj(bsc), "ExpectDone", "coll", verifCollIdx(collectionIdx), "batch", verifBatchID(changeArray))
+			}
 		}
 
 		bsc.replicationStats.HandleChangesSendRevCount.Add(revSendCount)
